@@ -3364,6 +3364,15 @@ def lib_dict_get(ev, a, k, n, mod):
     return d.d.get(key, a[2] if len(a) > 2 else None)
 
 
+def lib_option_context(ev, a, k, n, mod):
+    """pandas.option_context(name, value, ...): options set for the duration of a with-block and restored afterwards.  Display options change how numbers are PRINTED
+    (precision, width), which the value rules do not decide; any other option is not modelled"""
+    names = [x for x in a[0::2]]
+    if not names or not all(isinstance(x, str) and x.startswith("display.") for x in names):
+        raise ev.err("pandas.option_context with options other than display.*", n, mod)
+    return Opaque("pandas.option_context(display options)")
+
+
 def lib_id(ev, a, k, n, mod):
     """id(x): the address of the object - a value of which only 'same object, same address' is known"""
     return OpaqueToken("id", a[0])
@@ -3433,7 +3442,7 @@ LIB = {
     "len": lib_len, "range": lib_range, "tuple": lib_tuple, "list": lib_list, "sorted": lib_sorted,
     "zip": lib_zip, "itertools.product": lib_product, "itertools.permutations": lib_permutations,
     "set": lib_set, "int": lib_int, "float": lib_float, "str": lib_str, "repr": lib_repr, "sum": lib_sum, "id": lib_id, "vars": lib_vars,
-    "vars.setdefault": lib_vars_setdefault, "vars.get": lib_vars_get, "numpy.shape": lib_np_shape,
+    "vars.setdefault": lib_vars_setdefault, "vars.get": lib_vars_get, "numpy.shape": lib_np_shape, "pandas.option_context": lib_option_context,
     "isinstance": lib_isinstance,
     "pint.Quantity": lib_quantity, "pint.Quantity.to": lib_qty_to,
     "dict.items": lib_dict_items, "dict.keys": lib_dict_keys, "dict.values": lib_dict_values, "dict.get": lib_dict_get,
